@@ -376,13 +376,79 @@ def run_sharded(exe, lines, tag, shards=NPROC, **kw):
     return out
 
 
+_NUM_RE = re.compile(r'\bN([0-9a-f]{16})\b')
+
+
+def _canon_nan(m):
+    b = int(m.group(1), 16)
+    if (b >> 52) & 0x7ff == 0x7ff and (b & ((1 << 52) - 1)) != 0:
+        return 'N7ff8000000000000'
+    return m.group(0)
+
+
+def canon_chunks(chunks):
+    """Record entries are written in HashMap order: sort the entries of every record rendering by key.
+    Works on the chunk sequence (p:/l: items); a record is  p:64,123  {p:34,<key>,34,58 <value chunks> p:44}*  p:125|l:125.
+    Strings in record-printing tests never equal these chunk texts."""
+    def parse_value(i):
+        # returns (canonical list of chunks, next index)
+        c = chunks[i]
+        body = c[2:]
+        if body == '64,123':
+            entries = []; j = i + 1
+            while j < len(chunks) and chunks[j][2:] not in ('125',):
+                key = chunks[j]
+                val, j2 = parse_value(j + 1)
+                comma = chunks[j2] if j2 < len(chunks) else ''
+                entries.append((key, val, comma)); j = j2 + 1
+            entries.sort(key=lambda e: [int(x) for x in e[0][2:].split(',') if x.isdigit()])
+            out = [c]
+            for k, v, cm in entries: out += [k] + v + [cm]
+            if j < len(chunks): out.append(chunks[j])
+            return out, j + 1
+        if body == '91':
+            out = [c]; j = i + 1
+            while j < len(chunks) and chunks[j][2:] != '93':
+                if chunks[j][2:] == '44,32':
+                    out.append(chunks[j]); j += 1; continue
+                v, j = parse_value(j)
+                out += v
+            if j < len(chunks): out.append(chunks[j])
+            return out, j + 1
+        return [c], i + 1
+    out = []; i = 0
+    try:
+        while i < len(chunks):
+            v, i = parse_value(i)
+            out += v
+    except (IndexError, ValueError):
+        return chunks
+    return out
+
+
 def canon_result(line):
-    """canonical form of a result line for comparison: message text is a wildcard unless both sides give it"""
-    return line
+    """canonical form of a result line: NaN payloads, heap after an error (not an observable), sorted fs dump,
+    record entries in key order"""
+    line = _NUM_RE.sub(_canon_nan, line)
+    if not line.startswith('out '):
+        return line
+    parts = line.split(' | ')
+    res = next((p for p in parts if p.startswith('res ')), 'res ?')
+    keep = []
+    for p in parts:
+        if p.startswith('heap ') and not res.startswith('res ok'):
+            continue
+        if p.startswith('fs '):
+            p = 'fs ' + ' '.join(sorted(p[3:].split(' ')))
+        if p.startswith('out ') and '64,123' in p:
+            p = 'out ' + ' '.join(canon_chunks(p[4:].split(' ')))
+        keep.append(p)
+    return ' | '.join(keep)
 
 
 def lines_agree(impl, model):
     """impl/model: result lines. The model prints '*' for messages it does not model."""
+    impl, model = canon_result(impl), canon_result(model)
     if impl == model: return True
     a, b = impl.split(' '), model.split(' ')
     if len(a) != len(b): return False
